@@ -1049,10 +1049,22 @@ impl Iterator for Windows {
     }
 
     fn size_hint(&self) -> (usize, Option<usize>) {
+        // Once the cache holds a full window, each remaining input value produces another window.
+        // Otherwise the cached values (if any) still need to be joined by enough input values to
+        // fill the first window, and an input that's too short produces no windows at all.
+        let window_count = |input_count: usize| {
+            if self.cache.len() == self.window_size {
+                input_count
+            } else {
+                input_count
+                    .saturating_add(self.cache.len())
+                    .saturating_add(1)
+                    .saturating_sub(self.window_size)
+            }
+        };
+
         let (lower, upper) = self.iter.size_hint();
-        let lower = lower.saturating_sub(self.window_size) + 1;
-        let upper = upper.map(|upper| upper.saturating_sub(self.window_size) + 1);
-        (lower, upper)
+        (window_count(lower), upper.map(window_count))
     }
 }
 
